@@ -1006,6 +1006,9 @@ func ParseCIDR(cidr string) ([]*net.IPNet, error) {
 		return nil, fmt.Errorf("invalid IP range %q: invalid end IP %q", cidr, fs[1])
 	}
 
+	if (start.To4() == nil) != (end.To4() == nil) {
+		return nil, fmt.Errorf("invalid IP range %q: start IP %q and end IP %q are of different families", cidr, start, end)
+	}
 	if bytes.Compare(start, end) > 0 {
 		return nil, fmt.Errorf("invalid IP range %q: start IP %q is after the end IP %q", cidr, start, end)
 	}
